@@ -139,8 +139,13 @@ func (g *hgen) anns(f *hFld) {
 		if f.T.K == thrift.STRUCT && g.side == 0 && g.r.chance(25) {
 			k = hkNoBodyStruct
 		}
-		if g.side == 1 && k == hkHTTPCode && (f.T.K == thrift.DOUBLE || (!(f.T.K == thrift.I32 || f.T.K == thrift.I16 || f.T.K == thrift.I64 || f.T.K == thrift.STRING) && g.r.chance(80))) {
-			k = hkHeader
+		if g.side == 1 && k == hkHTTPCode {
+			// the float text (strconv 'f' / json float) is not modelled: keep api.http_code away from doubles
+			hasDouble := f.T.K == thrift.DOUBLE || ((f.T.K == thrift.LIST || f.T.K == thrift.SET) && f.T.Elem.K == thrift.DOUBLE)
+			intish := f.T.K == thrift.I32 || f.T.K == thrift.I16 || f.T.K == thrift.I64 || f.T.K == thrift.STRING
+			if hasDouble || (!intish && g.r.chance(80)) {
+				k = hkHeader
+			}
 		}
 		if g.side == 1 && k == hkNoBodyStruct {
 			k = hkForm
@@ -171,6 +176,7 @@ func (g *hgen) anns(f *hFld) {
 
 func (g *hgen) annStruct(depth int, nf int) *hTy {
 	g.nname++
+	sn := g.nname // field names carry the number of THEIR struct: unique over the whole IDL
 	t := &hTy{K: thrift.STRUCT, Name: fmt.Sprintf("S%d", g.nname)}
 	g.structs = append(g.structs, t)
 	ids := []int16{1, 2, 3, 4, 5, 6, 7, 8, 9, 10, 63, 64, 65, 127, 128, 255, 256, 1000}
@@ -188,7 +194,7 @@ func (g *hgen) annStruct(depth int, nf int) *hTy {
 			}
 		}
 		used[id] = true
-		f := &hFld{ID: id, Name: fmt.Sprintf("f%d_%d", g.nname, id), Req: g.r.intn(3)}
+		f := &hFld{ID: id, Name: fmt.Sprintf("f%d_%d", sn, id), Req: g.r.intn(3)}
 		f.T = g.fieldType(depth)
 		g.anns(f)
 		t.Fields = append(t.Fields, f)
